@@ -1,6 +1,6 @@
 CONSTANTS
-  MaxObs = 5
-  MaxWidth = 3
+  MaxObs = 8
+  MaxWidth = 5
 SPECIFICATION Spec
 CHECK_DEADLOCK FALSE
 INVARIANT PointwiseIsTotal
